@@ -126,9 +126,11 @@ def _chunk_task(pid, tier, seeds, want_digests):
                 agg['errors'].append(
                     {'seed': seed, 'error': 'MemoryError in worker'})
                 continue
-            except KeyboardInterrupt:
-                raise
-            except BaseException:       # incl. escaped SimInterrupt
+            except BaseException as e:  # incl. an escaped SimInterrupt
+                from .seams import SimInterrupt
+                if isinstance(e, KeyboardInterrupt) and \
+                        not isinstance(e, SimInterrupt):
+                    raise
                 agg['errors'].append(
                     {'seed': seed, 'error': traceback.format_exc()[-2000:]})
                 continue
